@@ -222,6 +222,8 @@ def run(ctx, res):
             % (ts['variant'], ts['changed'] + ts['missing'] + ts['extra']),
             dict(kind='tie-T3', status=ts), found_input=False))
     chain_tables_tie(fams, dumps, res)
+    from . import e2e
+    e2e.capstone_obligations(res, 'C12_')      # conditional corollary through compile_bash + a kernel-computed instance: Props/Capstone.v
     # primitives of the interpreter against real bash
     ntot, bad = t2.primitives_tie(ctx['rng'], 120 if ctx['tier'] == 'quick' else 1500)
     res.extra['primitive_comparisons'] = ntot
